@@ -784,6 +784,10 @@ class C04Signals(Machine):
             if len(ts) > 1:
                 step = min(abs(ts[min(i + 1, len(ts) - 1)] - ts[i]) or np.inf,
                            abs(ts[i] - ts[max(i - 1, 0)]) or np.inf)
+                if not np.isfinite(step):
+                    # both neighbours coincide with this sample (a re-gridding target with
+                    # repeated times): there is no step to take a fraction of
+                    raise Skip("no room to nudge this sample")
                 delta = 0.25 * step * (1 if op["val"] >= 0 else -1)
             else:
                 delta = op["val"]
